@@ -48,6 +48,7 @@ def make_config(rng: random.Random):
                dest_as=rng.choice(["str", "Path"]), ambient_env=rng.choice([None, None, None, {"GDAL_DISABLE_READDIR_ON_OPEN": "EMPTY_DIR"}, {"GDAL_DISABLE_READDIR_ON_OPEN": "TRUE", "GDAL_CACHEMAX": 64}, {"GDAL_NUM_THREADS": "2", "CPL_DEBUG": "OFF"}]))
     if rng.random() < 0.2:
         cfg["crs"] = rng.choice(gen.CUSTOM_RASTER_CRS)  # a raster in a user-defined CRS (no authority code)
+    cfg["array_form"] = rng.choice(gen.ARRAY_FORMS)
     if isinstance(ovr, list):
         # GDAL refuses level lists that collapse the image to 1x1 more than once: keep levels that leave >= 2 px on the longer side
         ovr = [L for L in ovr if max(ny, nx) / L >= 2]
@@ -117,7 +118,9 @@ def build_array(cfg):
         attrs = {"nodata": 1}  # the keyword has to win over the attribute
     else:
         attrs = {"nodata": cfg["nodata"]}
-    xx = xr.DataArray(data, dims=dims, coords=xr_coords(gb), attrs=attrs)
+    # memory layout of what is handed over (values identical): the oracle keeps its own contiguous copy
+    handed = gen.array_form(data.copy(), cfg.get("array_form", "plain"))
+    xx = xr.DataArray(handed, dims=dims, coords=xr_coords(gb), attrs=attrs)
     return xx, gb, data
 
 
@@ -278,6 +281,8 @@ def run_config(mon: Monitor, cfg, workdir: str) -> None:
             key = ("band-first-cube-ambiguous" if (layout == "SYX" and ns == ny == nx and not ok_pix) else "readback-pixels" if not ok_pix else "readback-georef" if not ok_geo else "readback-nodata")
             mon.check(ok_pix and ok_geo and ok_nodata, "readback", lambda: wit({"shape": back.shape, "expected_shape": exp.shape, "dtype": str(back.dtype), "pixels_ok": bool(ok_pix), "georef_ok": bool(ok_geo), "nodata_ok": bool(ok_nodata)}),
                       key=key, cls=cls + (f"|nodata-{via}" if via not in ("attrs", "none") else ""), sig=hsig("c15", repr(cfg)), sample=wit())
+            # the array stays the caller's: writing it must not change it (whatever its memory layout), nor its attributes
+            mon.check(bool(np.array_equal(np.asarray(xx.values), data)), "input-unchanged", lambda: wit({"why": "the written DataArray holds other values after the call"}), key="input-mutated", cls=cfg.get("array_form", "plain"))
             mon.check(ok_blk, "structure.blocks", lambda: wit({"tiled": tiled, "block_shapes": blk, "expected": want_blk}), key="block-sizes", cls=cls)
             mon.check(ok_ovr, "structure.overviews", lambda: wit({"overview_factors_reported": ovr, "overview_shapes": ovr_shapes, "expected_levels": want_levels, "expected_shapes": [(-(-ny // L), -(-nx // L)) for L in want_levels]}), key="overview-levels", cls=f"{'big' if min(ny, nx) >= 512 else 'small'}|{cfg['overviews'] if isinstance(cfg['overviews'], str) else 'list'}")
             if ext and ok_pix and ok_ovr:
